@@ -123,6 +123,16 @@ fn gen_file(rng: &mut Rng, case: u64, thorough: bool) -> MapAst {
             items.push(Item::Method(mapped_method(rng)));
         }
     }
+    if case % 2000 == 13 {
+        // more class and method records than a 16-bit counter holds
+        let extra = 65_536 + rng.below(600);
+        for i in 0..extra {
+            items.push(Item::Class { orig: format!("com.example.N{i}"), obf: format!("n{}", i % 70_000) });
+            if i % 2 == 0 {
+                items.push(Item::Method(unmapped_method(rng)));
+            }
+        }
+    }
     if mapped_at == 5 && rng.chance(1, 2) {
         // decisive record in the very last line
         items.push(Item::Method(mapped_method(rng)));
@@ -181,6 +191,9 @@ pub fn run(ctx: &Ctx, rep: &mut Reporter) {
                 rep.violation(case_idx, "folds", "metadata answers change when asked again, in another order or on a clone", d);
             }
             rep.count("files", 1);
+            if exp.class_count > 65_535 {
+                rep.count("files_with_more_than_65535_class_records", 1);
+            }
             {
                 let mut seen = std::collections::HashSet::new();
                 if ast.items.iter().any(|i| matches!(i, Item::Class { obf, .. } if !seen.insert(obf.clone()))) {
